@@ -1560,8 +1560,12 @@ func (a area) Run(c *core.Ctx) error {
 			a.scenarioMixedShapes(c)
 		case i == 14:
 			a.scenarioOpenFault(c)
+		case i == 15:
+			a.scenarioArmConsume(c)
 		case i >= 13 && i%10 == 3:
 			a.runDamagedCase(c, r)
+		case i >= 17 && i%10 == 7:
+			a.runDecoderSteps(c, r)
 		case i%2 == 1:
 			a.runMergeCase(c, r)
 		default:
